@@ -960,7 +960,11 @@ class Parser:
         if self.accept('id'):
             return self.create_node(IdNode, t)
         if self.accept('number'):
-            return self.create_node(NumberNode, t)
+            try:
+                return self.create_node(NumberNode, t)
+            except ValueError:
+                # Python refuses to convert decimal literals of more than sys.get_int_max_str_digits() digits
+                raise ParseException('Integer literal is too large', self.getline(), t.lineno, t.colno)
         if self.accept_any(ALL_STRINGS):
             return self.create_node(StringNode, t)
         return EmptyNode(self.current.lineno, self.current.colno, self.current.filename)
